@@ -167,9 +167,16 @@ pub fn strategy() -> impl Strategy<Value = Case> {
                     .prop_map(RVal::I)
                     .boxed()
             } else {
-                prop_oneof![3 => (0u128..100_000).boxed(), 3 => g::uint_value(vbits)]
-                    .prop_map(RVal::U)
-                    .boxed()
+                // (also values whose low bits sit on / next to the rounding midpoints of the conversion to double)
+                prop_oneof![
+                    3 => (0u128..100_000).boxed(),
+                    3 => g::uint_value(vbits),
+                    1 => (any::<u64>(), prop::sample::select(vec![0x400u64, 0x401, 0x3ff, 0x7ff, 0x800, 0x801, 0xc00, 0xbff, 0xc01, 0x001]), any::<bool>())
+                        .prop_map(|(v, low, top)| ((v & !0xfff) | low | if top { 1 << 63 } else { 0 }) as u128)
+                        .boxed()
+                ]
+                .prop_map(RVal::U)
+                .boxed()
             };
             // keep small values inside the variant's range
             val.prop_map(move |v| {
